@@ -114,7 +114,7 @@ def handleSymCons (j : Json) : Except String Json := do
       match numStep spin c s st with
       | .ok s' => s'
       | .error _ => s) s0
-    Json.mkObj [("c", ratJson c), ("subs", canonJson (subsR (RatPoly.evalAt c) S.terms)),
+    Json.mkObj [("c", ratJson c), ("subs", canonJson (S.subs (RatPoly.evalAt c)).terms),   -- `PCBO.subs` on the state, as in the theorems
       ("direct", numStJson direct)])
   pure (Json.mkObj [("steps", Json.arr outs.toArray), ("final", symStJson S), ("at", Json.arr subsOut.toArray)])
 
